@@ -24,7 +24,7 @@ def case(rng: Any, ctx: Ctx, index: int) -> None:
     K = int(rng.integers(1, 41 if big else 13))
     if rng.integers(8) == 0:
         K = n + int(rng.integers(0, 3))  # K >= n on purpose
-    dts = [np.float32] + ([np.float64] if ctx.x64 else []) + ([np.float16] if big and rng.integers(6) == 0 else [])
+    dts = [np.float32] + ([np.float64] if ctx.x64 else []) + ([np.float16, jnp.bfloat16] if big and rng.integers(5) == 0 else [])
     dt = np.dtype(gen.pick(rng, dts))
     # input batch shape (rank <= 3 in total) and band batch shape broadcastable to it
     brank = int(rng.integers(0, 3))
@@ -130,7 +130,38 @@ def case_reject(rng: Any, ctx: Ctx, index: int) -> None:
     LOG.violation('C09', mon, f'Toeplitz.__init__/{what}/accepted', 'illegal method or FFT size accepted', K=K)
 
 
+def case_longkernel(rng: Any, ctx: Ctx, index: int) -> None:
+    """Kernels far longer than the input and than any cache-friendly block (K up to 40 000, correlation lengths of real
+    time-ordered data): the default FFT size must still be admissible and every method must return T x."""
+    K = int(gen.pick(rng, [16385, 32768, 32769, 33000, 40000]))
+    n = int(rng.integers(1, 50))
+    dt = np.dtype(np.float64 if ctx.x64 and rng.integers(2) else np.float32)
+    band = np.zeros(K)
+    band[: n + 3] = rng.integers(-6, 7, size=n + 3) / 4
+    band[-1] = 0.75
+    s = gen.S((n,), dt)
+    method = gen.pick(rng, ['overlap_save', 'overlap_save', 'fft'])
+    LOG.case_key(f'{method}:K={K}:long-kernel:{dt.name}', True)
+    try:
+        op = T(jnp.asarray(band, dtype=dt), s, method=method)
+        LOG.evaluated('C09.construct')
+    except Exception as exc:  # noqa: BLE001
+        LOG.evaluated('C09.construct')
+        LOG.violation('C09', 'C09.construct', f'Toeplitz.__init__/legal-refused/long-kernel/{type(exc).__name__}', str(exc)[:120], n=n, K=K, method=method)
+        return
+    x = gen.rand_input(rng, s, lo=-6, hi=6)
+    LOG.count('C09.long-kernel', f'{method}:K={K}')
+    try:
+        op.mv(x)                                           # monitored by the reference-model monitor
+        LOG.evaluated('C09.apply')
+    except Exception as exc:  # noqa: BLE001
+        LOG.evaluated('C09.apply')
+        LOG.violation('C09', 'C09.apply', f'Toeplitz.mv/raises-{type(exc).__name__}/{method}/long-kernel', str(exc)[:160], n=n, K=K,
+                      fft_size=getattr(op, 'fft_size', None))
+
+
 def run(ctx: Ctx) -> None:
     enable('mvref')
+    drive(ctx, case_longkernel, 16, 64, stream=2, part='apply')
     drive(ctx, case, 1600, 20000, stream=0, part='apply')
     drive(ctx, case_reject, 200, 1000, stream=1, part='reject')
